@@ -17,8 +17,16 @@ NA = {
 "C18":"table lookup against the installed toolchain; enumeration of paths, nothing to schedule or fault",
 "C19":"pure function of (Qual/Anon/preamble combination, prefix, hints)",
 }
-PENDING = {k:"simulation target per DESIGN.md; check not yet built (will be claimed once it runs)" for k in ["C09","C20"]}
+PENDING = {}
 CLAIMED = {
+"C09": dict(engine="concsim", cat="exploration", ref="DESIGN.md 5.5",
+  technique="deterministic simulation: independent build+render jobs as tasks of a seeded cooperative (baton) scheduler with a yield before every statement of package jen (random-walk and PCT strategies), solo-run reference, invariant on jen's package-level state; Code values shared between sequentially rendered Files; auxiliary real-goroutine leg under the race detector",
+  text="O1: every job's result (bytes, error class, panic) interleaved with the others, and run after the others in a seeded order, equals the same job run alone from pristine package state; O2: a deep digest of everything reachable from jen's package-level variables never moves away from its process-start value (enforced while the package uses no sync/atomic); share mode: Files with different settings sharing sub-statements render as private rebuilds do; O3 (auxiliary, outside the technique family, sound): the same kind of jobs on 16 real goroutines of the unrewritten package under go's race detector.",
+  note="The scheduler serialises tasks, so it cannot show a data race by itself (hand-offs are happens-before edges): O2 and O3 carry that part of the statement; the O3 schedule is the Go runtime's and its replay file is the workload plus a repeat count. Blocking sync primitives inside jen are redirected to scheduler-aware wrappers by the rewriter; goroutines spawned inside jen are reported, not scheduled."),
+"C20": dict(engine="clonesim", cat="exploration", ref="DESIGN.md 5.7",
+  technique="deterministic simulation: original and nested clones as logical actors, seeded interleaving of appends of varying width against a per-actor list model, every actor rendered after every step",
+  text="Seeded histories of Clone and append operations (widths 1..9 so that slice capacity is and is not exhausted at clone time, probe counted); after every step every actor must render its own tokens in order after a prefix that is its parent's rendering at clone time or now; a fresh clone renders byte-identically to its parent.",
+  note="Token streams are compared with go/scanner (layout-insensitive); both a wrapping clone and a copying clone are accepted, as the statement allows."),
 "C10": dict(engine="filesim", cat="fault_enumeration", ref="DESIGN.md 5.6",
   technique="deterministic simulation with fault injection: fault plans at the caller's io.Writer (error / short write at the k-th Write) and at the os boundary under File.Save (real ENOENT/EISDIR/ENOTDIR situations in a sandbox; injected EACCES/ENOSPC/EIO with partial writes), enumerated over a fixed grid and sampled by seed; reference = fault-free rebuild of the same history",
   text="A fixed grid (5 trees x 7 entry points x every fault kind, 300 cells) is enumerated exhaustively on every run; beyond it trees, histories and fault plans are sampled by seed. A1: failed render => the writer got 0 bytes / the Save target is untouched; A2: a fired writer or filesystem fault => non-nil error; A3: success => writer content and saved file equal the bytes of an independent fault-free rebuild; A4: success/failure agrees with that rebuild when no fault fired.",
